@@ -12,8 +12,40 @@ func runTunnelTCP(r *tunRun) {
 	e, c := r.e, r.c
 	gw, lis := newTCPGateway(e, gwIP, gwPort)
 	r.gw = gw
+	// the byte stream is cut into segments wherever the network pleases: whole frames, two
+	// pieces, or a dribble of single octets
+	switch seg := e.Choose("cfg.tcpseg", 4); seg {
+	case 1:
+		gw.TCPCutter = func(n int) []int {
+			if n < 2 {
+				return []int{n}
+			}
+			k := 1 + e.Choose("wl.tcpcut", n-1)
+			e.Fault("tcp-frame-split")
+			return []int{k, n - k}
+		}
+	case 2:
+		gw.TCPCutter = func(n int) []int {
+			e.Fault("tcp-dribble")
+			var out []int
+			for n > 0 {
+				k := 1 + e.Choose("wl.tcpdrib", 3)
+				if k > n {
+					k = n
+				}
+				out = append(out, k)
+				n -= k
+			}
+			return out
+		}
+	}
 	gw.StartTCP(lis)
-	tun, err := knx.NewTunnel(fmt.Sprintf("%s:%d", gwIP, gwPort), knxnet.TunnelLayerData, knx.TunnelConfig{
+	layer := knxnet.TunnelLayerData
+	if c.Busmon {
+		layer = knxnet.TunnelLayerBusmon
+	}
+	gw.Busmon = c.Busmon
+	tun, err := knx.NewTunnel(fmt.Sprintf("%s:%d", gwIP, gwPort), layer, knx.TunnelConfig{
 		ResendInterval: c.R, HeartbeatInterval: c.H, ResponseTimeout: c.T, SendLocalAddress: c.LocalAddr, UseTCP: true,
 	})
 	r.h.Created = e.Stamp()
